@@ -37,7 +37,8 @@ pub fn judge(case: &FaultCase, run: &FaultRun) -> Outcome {
 		}
 		let served = a.reqs.iter().any(|i| {
 			let l = &run.snap.log[*i];
-			l.pos == Pos::Cert && l.status == 200
+			// a download that carries a usable chain (the garbled ones count as "no certificate obtained")
+			l.pos == Pos::Cert && l.status == 200 && !matches!(l.action.as_deref(), Some("NonPemBody") | Some("DamagedChain"))
 		});
 		if !served && a.before.0.is_some() && a.before.1.is_some() && pair_state(&a.before.0, &a.before.1).is_ok() && (a.after.0 != a.before.0 || a.after.1 != a.before.1) {
 			let which = if a.after.1 != a.before.1 { "key file" } else { "certificate file" };
@@ -74,7 +75,7 @@ pub fn multi_fault_strategy(max_attempts: usize) -> impl Strategy<Value = FaultC
 		f.nth = nth;
 		f
 	});
-	(proptest::collection::vec(fault, 2..=5), any::<bool>(), any::<bool>(), 1..=max_attempts, any::<bool>()).prop_map(|(faults, previous_pair, kp_reuse, attempts, nonce_on_get)| FaultCase { faults, previous_pair, kp_reuse, attempts, nonce_on_get, hook_faults: vec![], file_hooks: false, retry_after: None })
+	(proptest::collection::vec(fault, 2..=5), any::<bool>(), any::<bool>(), 1..=max_attempts, any::<bool>()).prop_map(|(faults, previous_pair, kp_reuse, attempts, nonce_on_get)| FaultCase { faults, previous_pair, kp_reuse, attempts, nonce_on_get, hook_faults: vec![], file_hooks: false, retry_after: None, processing: false })
 }
 
 pub fn single_cases(tier: Tier) -> Vec<FaultCase> {
@@ -93,7 +94,7 @@ pub fn single_cases(tier: Tier) -> Vec<FaultCase> {
 			Tier::Thorough => vec![(true, false), (true, true), (false, false), (false, true)],
 		};
 		for (pp, kr) in variants {
-			out.push(FaultCase { faults: vec![f.clone()], previous_pair: pp, kp_reuse: kr, attempts: 1, nonce_on_get: false, hook_faults: vec![], file_hooks: false, retry_after: None });
+			out.push(FaultCase { faults: vec![f.clone()], previous_pair: pp, kp_reuse: kr, attempts: 1, nonce_on_get: false, hook_faults: vec![], file_hooks: false, retry_after: None, processing: false });
 		}
 	}
 	out
